@@ -8,7 +8,7 @@
 
 enum { KD_DEC=0, KD_MS=1, KD_PROJ=2 };
 static int g_kid;
-typedef struct { const char *name; int fs,ch; int streams,coupled; unsigned char mapping[8]; int family; } dbase;
+typedef struct { const char *name; int fs,ch; int streams,coupled; unsigned char mapping[16]; int family; int derive; char namebuf[96]; } dbase;
 static dbase DB_DEC[]={
    {"OpusDecoder 48000 Hz stereo",48000,2},
    {"OpusDecoder 16000 Hz mono",16000,1},
@@ -17,17 +17,30 @@ static dbase DB_DEC[]={
    {"OpusDecoder 24000 Hz stereo",24000,2},
    {"OpusDecoder 12000 Hz mono",12000,1},
 };
-static dbase DB_MS[]={
+static dbase DB_MS[64]={
    {"OpusMSDecoder 48000 Hz 3ch (1 coupled + 1 mono stream)",48000,3,2,1,{0,1,2},0},
    {"OpusMSDecoder 16000 Hz 3ch (1 coupled + 1 mono stream)",16000,3,2,1,{0,1,2},0},
    {"OpusMSDecoder 48000 Hz 6ch surround (4 streams, 2 coupled)",48000,6,4,2,{0,4,1,2,3,5},1},
 };
-static dbase DB_PROJ[]={
+static int N_DB_MS=3;
+static dbase DB_PROJ[16]={
    {"OpusProjectionDecoder 48000 Hz 4ch FOA (2 coupled streams)",48000,4,2,2,{0},3},
    {"OpusProjectionDecoder 16000 Hz 4ch FOA (2 coupled streams)",16000,4,2,2,{0},3},
 };
+static int N_DB_PROJ=2;
+/* one decoder base per (mapping family, channel count) pair that encoder creation accepts in the small range; streams / coupled /
+ * mapping (and the demixing matrix of the projection decoder) are whatever the frozen reference encoder chooses for that pair */
+static void add_layout_bases(void){
+   static const int amb[4]={4,6,9,11}; int c,i,f;
+   static const int fam[3]={0,1,255}, lo[3]={1,1,1}, hi[3]={2,8,4};
+   for(f=0;f<3;f++) for(c=lo[f];c<=hi[f];c++){ dbase *d=&DB_MS[N_DB_MS++]; memset(d,0,sizeof *d); d->fs=(c==3)?16000:48000; d->ch=c; d->family=fam[f]; d->derive=1; }
+   for(i=0;i<4;i++){ dbase *d=&DB_MS[N_DB_MS++]; memset(d,0,sizeof *d); d->fs=48000; d->ch=amb[i]; d->family=2; d->derive=1; }
+   for(i=0;i<4;i++){ dbase *d=&DB_PROJ[N_DB_PROJ++]; memset(d,0,sizeof *d); d->fs=i==1?24000:48000; d->ch=amb[i]; d->family=3; d->derive=1; }
+}
 static dbase *DBS; static int NDB;
-static unsigned char g_demix[4096]; static opus_int32 g_demix_size;
+#define MAXGRP 40
+static unsigned char g_demix[MAXGRP][2048]; static opus_int32 g_demix_size[MAXGRP];
+static int g_grp[96];                          /* base -> packet group */
 static const char *db_name(int b){ return DBS[b].name; }
 
 static size_t d_size(int b){ const dbase *d=&DBS[b];
@@ -37,12 +50,12 @@ static size_t d_size(int b){ const dbase *d=&DBS[b];
 }
 static int d_init(void *obj,int b){ const dbase *d=&DBS[b];
    if (g_kid==KD_DEC) return opus_decoder_init(obj,d->fs,d->ch);
-   if (g_kid==KD_PROJ) return opus_projection_decoder_init(obj,d->fs,d->ch,d->streams,d->coupled,g_demix,g_demix_size);
+   if (g_kid==KD_PROJ) return opus_projection_decoder_init(obj,d->fs,d->ch,d->streams,d->coupled,g_demix[g_grp[b]],g_demix_size[g_grp[b]]);
    return opus_multistream_decoder_init(obj,d->fs,d->ch,d->streams,d->coupled,d->mapping);
 }
 static void *d_create(int b){ const dbase *d=&DBS[b]; int err=0;
    if (g_kid==KD_DEC) return opus_decoder_create(d->fs,d->ch,&err);
-   if (g_kid==KD_PROJ) return opus_projection_decoder_create(d->fs,d->ch,d->streams,d->coupled,g_demix,g_demix_size,&err);
+   if (g_kid==KD_PROJ) return opus_projection_decoder_create(d->fs,d->ch,d->streams,d->coupled,g_demix[g_grp[b]],g_demix_size[g_grp[b]],&err);
    return opus_multistream_decoder_create(d->fs,d->ch,d->streams,d->coupled,d->mapping,&err);
 }
 static void d_destroy(void *o){
@@ -61,8 +74,7 @@ static int d_ctl_0(void *o,int req){
 /* packet slots: for the plain decoder one table for all bases, for multistream/projection one per layout group */
 typedef struct { unsigned char *data; int len; int dur48; char what[80]; } pslot;
 #define MAXSLOT 20
-static pslot g_pk[4][MAXSLOT]; static int g_npk[4];
-static int g_grp[8];                           /* base -> packet group */
+static pslot g_pk[MAXGRP][MAXSLOT]; static int g_npk[MAXGRP];
 static pslot *slot_put(int grp,int s,const unsigned char *d,int len,int dur48,const char *what){
    pslot *p=&g_pk[grp][s]; p->data=malloc(len?len:1); memcpy(p->data,d,len); C12_DEFINED(p->data,len); p->len=len; p->dur48=dur48; snprintf(p->what,sizeof p->what,"%s",what); if(s>=g_npk[grp]) g_npk[grp]=s+1; return p;
 }
@@ -152,18 +164,21 @@ static const mcfg MCFG[]={
    {OPUS_APPLICATION_RESTRICTED_LOWDELAY,1,25,SIG_NOISE,0,3,"LOWDELAY 2.5ms #3"},
 };
 #define NMCFG 5
-static void make_ms_packets(int grp,const dbase *d){
+static void make_ms_packets(int grp,dbase *d){
    int c;
-   for(c=0;c<NMCFG;c++){ const mcfg *m=&MCFG[c]; int err=0,i,st,cp,n=0; unsigned char map[256]; siggen g; int fsz=(int)(48000L*m->dur_x10/10000);
-      short *pcm=malloc(sizeof(short)*(size_t)fsz*d->ch); unsigned char out[8000]; char w[80];
+   for(c=0;c<NMCFG;c++){ const mcfg *m=&MCFG[c]; int err=0,i,st=0,cp=0,n=0; unsigned char map[256]; siggen g; int fsz=(int)(48000L*m->dur_x10/10000);
+      short *pcm=malloc(sizeof(short)*(size_t)fsz*d->ch); static unsigned char out[16000]; char w[80];
       opus_int32 rate = m->bitrate==0? 14000*d->ch : m->bitrate==1? 64000*d->ch : 28000*d->ch;
       OpusMSEncoder *me=NULL; OpusProjectionEncoder *pe=NULL;
       if (g_kid==KD_PROJ){ pe=ref_opus_projection_ambisonics_encoder_create(48000,d->ch,3,&st,&cp,m->app,&err);
-         if(!pe||st!=d->streams||cp!=d->coupled){ fprintf(stderr,"c12: ref projection encoder layout mismatch\n"); exit(2); }
+         if (pe && d->derive){ d->streams=st; d->coupled=cp; }
+         if(!pe||st!=d->streams||cp!=d->coupled){ fprintf(stderr,"c12: ref projection encoder layout mismatch (%d ch)\n",d->ch); exit(2); }
          ref_opus_projection_encoder_ctl(pe,OPUS_SET_BITRATE(rate)); if(m->fec){ ref_opus_projection_encoder_ctl(pe,OPUS_SET_INBAND_FEC(1)); ref_opus_projection_encoder_ctl(pe,OPUS_SET_PACKET_LOSS_PERC(20)); }
-         if (c==0){ ref_opus_projection_encoder_ctl(pe,OPUS_PROJECTION_GET_DEMIXING_MATRIX_SIZE(&g_demix_size)); if(g_demix_size>(int)sizeof g_demix){ fprintf(stderr,"c12: demix too big\n"); exit(2);} ref_opus_projection_encoder_ctl(pe,OPUS_PROJECTION_GET_DEMIXING_MATRIX(g_demix,g_demix_size)); C12_DEFINED(g_demix,sizeof g_demix); }
-      } else if (d->family==1){ me=ref_opus_multistream_surround_encoder_create(48000,d->ch,1,&st,&cp,map,m->app,&err);
-         if(!me||st!=d->streams||cp!=d->coupled||memcmp(map,d->mapping,d->ch)){ fprintf(stderr,"c12: ref surround layout mismatch\n"); exit(2); }
+         if (c==0){ ref_opus_projection_encoder_ctl(pe,OPUS_PROJECTION_GET_DEMIXING_MATRIX_SIZE(&g_demix_size[grp])); if(g_demix_size[grp]>(int)sizeof g_demix[grp]){ fprintf(stderr,"c12: demix too big\n"); exit(2);} ref_opus_projection_encoder_ctl(pe,OPUS_PROJECTION_GET_DEMIXING_MATRIX(g_demix[grp],g_demix_size[grp])); C12_DEFINED(g_demix[grp],sizeof g_demix[grp]); }
+      } else if (d->derive || d->family==1){ me=ref_opus_multistream_surround_encoder_create(48000,d->ch,d->family,&st,&cp,map,m->app,&err);
+         C12_DEFINED(map,sizeof map);
+         if (me && d->derive){ d->streams=st; d->coupled=cp; memcpy(d->mapping,map,d->ch); }
+         if(!me||st!=d->streams||cp!=d->coupled||memcmp(map,d->mapping,d->ch)){ fprintf(stderr,"c12: ref surround layout mismatch (family %d, %d ch)\n",d->family,d->ch); exit(2); }
       } else me=ref_opus_multistream_encoder_create(48000,d->ch,d->streams,d->coupled,d->mapping,m->app,&err);
       if (me){ ref_opus_multistream_encoder_ctl(me,OPUS_SET_BITRATE(rate)); if(m->fec){ ref_opus_multistream_encoder_ctl(me,OPUS_SET_INBAND_FEC(1)); ref_opus_multistream_encoder_ctl(me,OPUS_SET_PACKET_LOSS_PERC(20)); } }
       sig_init(&g,m->sig,48000,d->ch,(uint32_t)(c*5+2));
@@ -174,10 +189,19 @@ static void make_ms_packets(int grp,const dbase *d){
       if (pe) ref_opus_projection_encoder_destroy(pe); else ref_opus_multistream_encoder_destroy(me);
       free(pcm);
    }
+   if (d->derive){ snprintf(d->namebuf,sizeof d->namebuf,"%s mapping family %d, %d Hz %dch (%d streams, %d coupled)",g_kid==KD_PROJ?"OpusProjectionDecoder":"OpusMSDecoder",d->family,d->fs,d->ch,d->streams,d->coupled); d->name=d->namebuf; }
 }
 static void alphabet_ms(int alpha){
    int c; char nm[56];
    NOPS=0;
+   if (alpha<=-2){ /* minimal alphabet for the creation-path (layout) bases: decode, decode, reset, decode (+ FEC, PLC) */
+      snprintf(nm,sizeof nm,"decode(%s)",MCFG[0].label); add_op(nm,OP_IO,0,0,0,0);
+      snprintf(nm,sizeof nm,"decode(%s)",MCFG[2].label); add_op(nm,OP_IO,2,0,0,0);
+      add_op("decode_fec(VOIP low rate 20ms +FEC #4)",OP_IO,1,1,0,0);
+      add_op("PLC(20 ms)",OP_IO,-1,0,0,200);
+      add_op("ctl(OPUS_RESET_STATE)",OP_RESET,0,0,0,0);
+      return;
+   }
    for(c=0;c<NMCFG;c++){ if(alpha<1 && c==4) continue; snprintf(nm,sizeof nm,"decode(%s)",MCFG[c].label); add_op(nm,OP_IO,c,0,0,0); }
    add_op("decode_float(AUDIO high rate 10ms #3)",OP_IO,2,0,1,0);
    add_op("decode_fec(VOIP low rate 20ms +FEC #4)",OP_IO,1,1,0,0);
@@ -194,18 +218,20 @@ int main(int argc,char **argv){
    engine_replay_outdir();
    kind=mc_arg_s("--kind","dec"); MC.part=mc_arg_s("--part",kind);
    alpha=(int)mc_arg("--alpha",MC.tier?1:0);
+   add_layout_bases();
    if (!strcmp(kind,"dec")){ g_kid=KD_DEC; DBS=DB_DEC; NDB=sizeof DB_DEC/sizeof DB_DEC[0]; KIND_D.name="decoder"; }
-   else if (!strcmp(kind,"msdec")){ g_kid=KD_MS; DBS=DB_MS; NDB=sizeof DB_MS/sizeof DB_MS[0]; KIND_D.name="ms_decoder"; }
-   else if (!strcmp(kind,"projdec")){ g_kid=KD_PROJ; DBS=DB_PROJ; NDB=sizeof DB_PROJ/sizeof DB_PROJ[0]; KIND_D.name="projection_decoder"; }
+   else if (!strcmp(kind,"msdec")){ g_kid=KD_MS; DBS=DB_MS; NDB=N_DB_MS; KIND_D.name="ms_decoder"; }
+   else if (!strcmp(kind,"projdec")){ g_kid=KD_PROJ; DBS=DB_PROJ; NDB=N_DB_PROJ; KIND_D.name="projection_decoder"; }
    else { fprintf(stderr,"unknown --kind %s\n",kind); return 2; }
    KIND_D.nbases=NDB; K=&KIND_D;
-   bases=mc_arg_s("--bases","0"); g_nbsel=0;
-   for(i=0;bases[i];i++) if(bases[i]>='0'&&bases[i]<='9'&&bases[i]-'0'<NDB) g_bsel[g_nbsel++]=bases[i]-'0';
+   bases=mc_arg_s("--bases","0"); engine_parse_bases(bases,NDB);
    if (g_kid==KD_DEC){ alphabet_dec(alpha); for(i=0;i<NDB;i++) g_grp[i]=0; }
-   else { int ng=0;
-      /* layout groups: bases with the same (channels, streams, coupled) share packets */
-      for(i=0;i<NDB;i++){ int j,found=-1; for(j=0;j<i;j++) if(DBS[j].ch==DBS[i].ch&&DBS[j].streams==DBS[i].streams&&DBS[j].coupled==DBS[i].coupled) found=g_grp[j];
-         if(found>=0) g_grp[i]=found; else { g_grp[i]=ng; make_ms_packets(ng,&DBS[i]); ng++; } }
+   else { int ng=0,k;
+      /* layout groups among the SELECTED bases: bases with the same (family, channels, streams, coupled) share packets */
+      for(k=0;k<g_nbsel;k++){ int bi=g_bsel[k],j,found=-1;
+         for(j=0;j<k;j++){ int bj=g_bsel[j]; if(DBS[bj].ch==DBS[bi].ch&&DBS[bj].family==DBS[bi].family&&(DBS[bi].derive||(DBS[bj].streams==DBS[bi].streams&&DBS[bj].coupled==DBS[bi].coupled))&&DBS[bj].derive==DBS[bi].derive) found=bj; }
+         if(found>=0){ g_grp[bi]=g_grp[found]; if(DBS[bi].derive){ DBS[bi].streams=DBS[found].streams; DBS[bi].coupled=DBS[found].coupled; memcpy(DBS[bi].mapping,DBS[found].mapping,16); } }
+         else { if(ng>=MAXGRP){ fprintf(stderr,"c12: too many layout groups\n"); return 2; } g_grp[bi]=ng; make_ms_packets(ng,&DBS[bi]); ng++; } }
       alphabet_ms(alpha);
    }
    for(i=0;i<g_npk[0];i++) mc_info("packet slot %d (group 0): %s",i,g_pk[0][i].what);
